@@ -6,7 +6,7 @@ from cvbase import *
 ID = "C03"
 PROPS = "C03"
 RULE = ("body-bearing requests of every framing kind (Content-Length, chunked in four size-line styles with random chunkings, "
-        "both headers, upgrade, none) with sizes on both sides of 1024 / 8192 and up to 70000, read with scripted buffer-size "
+        "both headers, upgrade with the option in every spelling/position of the Connection list, none; HTTP/1.1 and HTTP/1.0 keep-alive) with sizes on both sides of 1024 / 8192 and up to 70000, read with scripted buffer-size "
         "sequences (1, 2, 7, 1023, 1024, 1025, 4096, 8192, 65536; partial reads; reads beyond the end), followed by a tagged "
         "pipelined request; the oracle demands exactly the designated bytes, end-of-stream exactly at the boundary (never a byte "
         "of the follower), the declared length, and the follower delivered intact; non-trivial = non-empty body; distinct = lines")
@@ -68,6 +68,9 @@ def build(rng, i, transport="u"):
     body = body_bytes(tag, size)
     r = AReq(method=rng.choice(["POST", "PUT"]), target="/" + tag, version="1.1", headers=[("Host", "h")], framing=fr,
              body=body, chunks=random_chunks(rng, size) if fr in ("chunked", "both") else None, chunk_style=rng.below(4))
+    if rng.chance(1, 6):
+        # the framing rules do not depend on the request's HTTP version: HTTP/1.0 with keep-alive, any framing
+        r.version, r.conn = "1.0", rng.choice(["keep-alive", "Keep-Alive"])
     if fr == "both":
         r.te_first = rng.chance(1, 2)          # either order of the two framing headers
     if fr in ("both", "chunked"):
@@ -102,13 +105,16 @@ def build(rng, i, transport="u"):
     wl.append("N")
     extra = "wu=%s wb=%s wre=%s wl=%s ws=200,200 we=closed fr=%s" % (j(wu), j(wb), j(wre), j(wl), fr)
     return cv_line(stream, acts, transport=transport, extra=extra), {"framing": fr, "size": size, "reads": len(reads),
-                                                                      "buf": str(reads[0][1]), "end": end}
+                                                                      "buf": str(reads[0][1]), "end": end, "version": r.version}
 
 
 def build_upgrade(rng, i):
     tag = "up%d" % i
     rest = body_bytes(tag, rng.choice([0, 5, 3000])) + b"GET /not-a-request HTTP/1.1\r\n\r\n"
     r = AReq(method="GET", target="/" + tag, version="1.1", headers=[("Host", "h"), ("Upgrade", "x")], framing="upgrade", body=rest)
+    # the upgrade option in every spelling and position of the Connection list
+    r.conn = rng.choice(["Upgrade", "upgrade", "UPGRADE", "keep-alive, Upgrade", "Upgrade, keep-alive", "keep-alive,upgrade",
+                         "keep-alive ,  Upgrade", "x, Upgrade ,y"])
     # an upgrade request keeps ALL remaining bytes verbatim, whatever framing headers it also carries
     k = rng.below(4)
     wl = "N"
